@@ -1,3 +1,4 @@
+import token
 import tokenize
 from pathlib import Path
 
@@ -32,6 +33,16 @@ class SourceFile:
         return self._source.asttokens()
 
     def _token_to_code(self, tokens):
+        if len(tokens) == 1 and tokens[0].type == token.STRING:
+            # black handles a lone string like a module docstring
+            # and strips leading/trailing whitespace from its value,
+            # it has to be formatted as part of an other statement.
+            prefix = "_ = "
+            code = self._format(prefix + tokens[0].string).strip()
+            if code.startswith(prefix):
+                return code[len(prefix) :]
+            return tokens[0].string
+
         return self._format(tokenize.untokenize(tokens)).strip()
 
     def _value_to_code(self, value):
